@@ -18,7 +18,7 @@ end of this file): miss counters never decrease (`C04.miss_monotone`), so "after
 inherited by every step of the call (`C04.quiet_inherited`, with `During` = "is a step of");
 for the individual steps it means: no completed `del` / `TriggerNoCache` on the frame
 (`C04.no_del_in_quiet_call`), every `makeRef` reached only a binding of a depth-0 frame that is function-valued or
-has an all-caps name (`C04.quiet_makeRef`; since repo fix 066677f a function held by a variable of an enclosing call is
+has an all-caps name (`C04.quiet_makeRef`; since repo fix 103fa2c a function held by a variable of an enclosing call is
 a miss: `mk=func(g){func(x){g(x)}}; c1=mk(inc); c2=mk(dbl); c1(3), c2(3)` used to print 4 4), every nested call was a hit, failed to bind
 its arguments, or was itself miss-free on its own frame (`C04.purity_footprint`).
 
